@@ -109,7 +109,8 @@ func genC05(r *Rand, tier string, i int) *h.Scenario {
 	p := DefaultProfile("C05")
 	p.MinBars, p.MaxBars = 2, 6
 	p.PDelay = 0
-	p.PTerminal = 0.2
+	p.PTerminal = 0.3
+	p.PTightTerm = 0.3 // bars without a line of their own stay in the container all the same
 	p.PRm, p.PPop, p.PAbortFinish = 0.35, 0.3, 0.35
 	p.PNotifier = 0.6
 	p.PQueueAfter = 0.1
@@ -162,6 +163,15 @@ func judgeC05(hi *Hist) []*Violation {
 	if outFault {
 		frames = nil
 		note("c05_notifier_after_write_error")
+	}
+	// a terminal with fewer lines than rows clips bars out of the frames (C04 demands that): what
+	// the frames show says nothing about the container then, the notifier's list still does
+	for _, f := range frames {
+		if len(f.Spy) > len(f.Groups) {
+			frames = nil
+			note("c05_clipped_run")
+			break
+		}
 	}
 	facts := Facts(hi)
 	var out []*Violation
